@@ -78,6 +78,11 @@ theorem ResKeep.foldl {α : Type} (f : WorkerSt → α → WorkerSt) (hf : ∀ w
   | [], w => ResKeep.refl w
   | a :: l, w => (hf w a).trans (ResKeep.foldl f hf l (f w a))
 
+theorem ResKeep.release (w : WorkerSt) (cur : Pid) : ResKeep w (w.release cur) := by
+  unfold WorkerSt.release; split
+  · exact ResKeep.modProc w cur _ releaseDead_result
+  · exact ResKeep.refl w
+
 /-- `finish` of a process that has no result yet keeps all results and stores `finalRes` -/
 theorem ResKeep.finish {w : WorkerSt} {cur : Pid} (x : Proc) (ordQ : List Pid)
     (hc : ∀ y, w.procs cur = some y → y.result = none) :
@@ -89,7 +94,8 @@ theorem ResKeep.finish {w : WorkerSt} {cur : Pid} (x : Proc) (ordQ : List Pid)
   have h2 := ResKeep.foldl (fun acc a => acc.notifyResult a cur x.finalRes) (fun w' a => ResKeep.notifyResult w' a cur _)
     (orderBy ordQ (({ w with procs := upd w.procs cur (some { x with result := some x.finalRes }) } : WorkerSt).localAwaiters cur))
     { w with procs := upd w.procs cur (some { x with result := some x.finalRes }) }
-  refine ⟨h1.trans h2, h2 cur x.finalRes ?_⟩
+  dsimp only
+  refine ⟨(h1.trans h2).trans (ResKeep.release _ cur), ResKeep.release _ cur cur x.finalRes (h2 cur x.finalRes ?_)⟩
   simp [WorkerSt.resultOf]
 
 /-! ### results are stable under every micro-step -/
@@ -179,11 +185,14 @@ theorem ResMono.cmdStep1 {s : Sys} (h : SInv s) (i : Wid) : ResMono s (cmdStep1W
         simp only [handleCmdWith, hx]
         exact ResMono.of_upd rfl (ResKeep.wakeSelecting _ t)
       | some x =>
-        simp only [handleCmdWith, hx]
-        refine ResMono.of_upd rfl ?_
-        exact (ResKeep.updProc (p := t) (x' := { x with mailbox := x.mailbox ++ [m] })
-          (w' := { s1.wk i with procs := upd (s1.wk i).procs t (some { x with mailbox := x.mailbox ++ [m] }) }) rfl
-          (fun y hy r hr => by rw [hx] at hy; cases hy; exact hr)).trans (ResKeep.wakeSelecting _ t)
+        by_cases hd : (Cfg.releaseDead && !x.deliverable) = true
+        · simp only [handleCmdWith, hx, hd, if_true]
+          exact ResMono.of_upd rfl (ResKeep.wakeSelecting _ t)
+        · simp only [handleCmdWith, hx, hd, Bool.false_eq_true, if_false]
+          refine ResMono.of_upd rfl ?_
+          exact (ResKeep.updProc (p := t) (x' := { x with mailbox := x.mailbox ++ [m] })
+            (w' := { s1.wk i with procs := upd (s1.wk i).procs t (some { x with mailbox := x.mailbox ++ [m] }) }) rfl
+            (fun y hy r hr => by rw [hx] at hy; cases hy; exact hr)).trans (ResKeep.wakeSelecting _ t)
     | queryAwait a ts =>
       simp only [handleCmdWith]
       have hq2 := queryTargets_spec a ts (s1.wk i)
@@ -240,6 +249,8 @@ theorem ResMono.execStep {s : Sys} (h : SInv s) (i : Wid) (fuel : Nat) (ordQ : L
           -- results of others are kept through the update of `cur` and the notifications
           intro t r hr
           unfold WorkerSt.finish
+          dsimp only
+          apply ResKeep.release
           have h2 := ResKeep.foldl (fun acc a => acc.notifyResult a cur x'.finalRes) (fun w' a => ResKeep.notifyResult w' a cur _)
             (orderBy ordQ (({ w0 with queue := rest, procs := upd (upd w0.procs cur (some x')) cur (some { x' with result := some x'.finalRes }) } : WorkerSt).localAwaiters cur))
             { w0 with queue := rest, procs := upd (upd w0.procs cur (some x')) cur (some { x' with result := some x'.finalRes }) }
@@ -253,6 +264,8 @@ theorem ResMono.execStep {s : Sys} (h : SInv s) (i : Wid) (fuel : Nat) (ordQ : L
           refine ResMono.of_upd ((noteExit_wk _ _ _ _).trans rfl) ?_
           intro t r hr
           unfold WorkerSt.finish
+          dsimp only
+          apply ResKeep.release
           have h2 := ResKeep.foldl (fun acc a => acc.notifyResult a cur x'.finalRes) (fun w' a => ResKeep.notifyResult w' a cur _)
             (orderBy ordQ (({ w0 with queue := rest, procs := upd (upd w0.procs cur (some x')) cur (some { x' with result := some x'.finalRes }) } : WorkerSt).localAwaiters cur))
             { w0 with queue := rest, procs := upd (upd w0.procs cur (some x')) cur (some { x' with result := some x'.finalRes }) }
